@@ -203,21 +203,23 @@ def checkPasswordShape (pw : Bytes) : Option (ModeAcc × Bytes) :=
         let cred := rest.dropWhile (· == 32)
         if cred.contains 32 then some (m, cred) else none
 
+/-- the hold arithmetic of `iauth_xquery_check_password`: take the +! hold when +! becomes
+    set, release it when it becomes unset, both only while the client has no account -/
+def holdsAfterPassword (holds : Int) (was bang noAccount : Bool) : Int :=
+  if bang && !was && noAccount then holds + 1
+  else if !bang && was && noAccount then holds - 1
+  else holds
+
 /-- `iauth_xquery_check_password` -/
 def xqCheckPassword (c : Ctx) (cli : XqCli) (pw : Bytes) : Ctx :=
   match checkPasswordShape pw with
   | none => c
   | some (m, cred) =>
-    let was := cli.modeBang
     let x := (cli.modeX && !m.clrX) || m.setX
     let bang := (cli.modeBang && !m.clrBang) || m.setBang
-    let noAccount := c.req.account.isEmpty
-    let c :=
-      if bang && !was && noAccount then updReq c fun r => { r with holds := r.holds + 1 }
-      else if !bang && was && noAccount then updReq c fun r => { r with holds := r.holds - 1 }
-      else c
-    let cli := { cli with modeX := x, modeBang := bang, cred := strncpyN 511 cred }
-    let c := updReq c fun r => { r with xq := some cli }
+    let cli' := { cli with modeX := x, modeBang := bang, cred := strncpyN 511 cred }
+    let c := updReq c fun r =>
+      { r with holds := holdsAfterPassword r.holds cli.modeBang bang r.account.isEmpty, xq := some cli' }
     xqCheck true c
 
 def xqMoreLoop (pw : Bytes) : List Nat → Ctx → XqCli → Ctx × XqCli
